@@ -407,6 +407,24 @@ func (p *printer) tryToGetImportedEnumValueUTF16(target js_ast.Expr, name []uint
 	return js_ast.TSEnumValue{}, "", false
 }
 
+func (p *printer) isImportedEnumNumber(expr js_ast.Expr) bool {
+	switch e := expr.Data.(type) {
+	case *js_ast.EDot:
+		if e.OptionalChain == js_ast.OptionalChainNone {
+			if value, ok := p.tryToGetImportedEnumValue(e.Target, e.Name); ok {
+				return value.String == nil
+			}
+		}
+	case *js_ast.EIndex:
+		if index, ok := e.Index.Data.(*js_ast.EString); ok && e.OptionalChain == js_ast.OptionalChainNone {
+			if value, _, ok := p.tryToGetImportedEnumValueUTF16(e.Target, index.Value); ok {
+				return value.String == nil
+			}
+		}
+	}
+	return false
+}
+
 func (p *printer) printClauseAlias(loc logger.Loc, alias string) {
 	if js_ast.IsIdentifier(alias) {
 		p.printSpaceBeforeIdentifier()
@@ -3481,6 +3499,9 @@ func (v *binaryExprVisitor) checkAndPrepare(p *printer) bool {
 			if _, ok := inlined.Value.Data.(*js_ast.ENumber); ok {
 				v.leftLevel = js_ast.LCall
 			}
+		} else if p.isImportedEnumNumber(e.Left) {
+			// A cross-module enum value that is inlined while printing may be a negative number too
+			v.leftLevel = js_ast.LCall
 		} else if p.options.MinifySyntax {
 			// When minifying, booleans are printed as "!0 and "!1"
 			if _, ok := e.Left.Data.(*js_ast.EBoolean); ok {
